@@ -112,6 +112,12 @@ func trPlacement() string {
 		die("placement: expected 2 remainingResourcesInOffer.Subtract calls (one per picked port), found %d — "+
 			"the model (static ranges, cpu, memory never subtracted) no longer describes this function", subtracts)
 	}
+	// the matching functions the model treats as values-in, value-out must not write into, alias or
+	// extend what they are given (the class's own constraint list is handed to MergeParent for every
+	// descriptor of that class)
+	checkArgsUntouched("core/task/constraint/constraints.go", "Constraints", "MergeParent")
+	checkArgsUntouched("core/task/constraint/attributes.go", "Attributes", "Satisfy")
+	checkArgsUntouched("core/task/match.go", "Resources", "Satisfy")
 	var b strings.Builder
 	b.WriteString("(* regenerated on every run by harness/cmd/translate (placement) from\n   makeTaskForMesosResources in core/task/scheduler.go *)\n")
 	b.WriteString("From Verif Require Import Common.\nOpen Scope N_scope.\n")
@@ -120,4 +126,104 @@ func trPlacement() string {
 	fmt.Fprintf(&b, "(* ports 0..control_port_floor are removed before the control port is picked *)\n")
 	fmt.Fprintf(&b, "Definition control_port_floor : N := %d.\n", removes[1].end)
 	return b.String()
+}
+
+// rootIdent returns the identifier an lvalue / slice expression is rooted at (p, p[i], p.f, *p, p[a:b]).
+func rootIdent(e ast.Expr) *ast.Ident {
+	for {
+		switch x := e.(type) {
+		case *ast.Ident:
+			return x
+		case *ast.IndexExpr:
+			e = x.X
+		case *ast.SelectorExpr:
+			e = x.X
+		case *ast.StarExpr:
+			e = x.X
+		case *ast.SliceExpr:
+			e = x.X
+		case *ast.ParenExpr:
+			e = x.X
+		default:
+			return nil
+		}
+	}
+}
+
+// checkArgsUntouched fails the run when the method recv.name (1) assigns through its receiver or a
+// parameter (p[i] = .., p.f = .., *p = .., p[i]++), (2) lets another variable share their memory
+// (x = p, x := p[a:b], also as a result), or (3) hands them to append / copy as the destination.
+// Reading them (range, index, field, passing on as a non-first argument) is fine.
+func checkArgsUntouched(rel, recv, name string) {
+	fset, f := parseFile(rel)
+	fd := findFunc(f, recv, name)
+	if fd == nil || fd.Body == nil {
+		die("placement: method %s.%s not found in %s", recv, name, rel)
+	}
+	params := map[string]bool{}
+	if fd.Recv != nil {
+		for _, fl := range fd.Recv.List {
+			for _, n := range fl.Names {
+				params[n.Name] = true
+			}
+		}
+	}
+	for _, fl := range fd.Type.Params.List {
+		for _, n := range fl.Names {
+			params[n.Name] = true
+		}
+	}
+	isParamMem := func(e ast.Expr) bool { // p or a slice of p
+		switch x := e.(type) {
+		case *ast.Ident:
+			return params[x.Name]
+		case *ast.SliceExpr:
+			id := rootIdent(x)
+			return id != nil && params[id.Name]
+		case *ast.ParenExpr:
+			id := rootIdent(x)
+			return id != nil && params[id.Name]
+		}
+		return false
+	}
+	bad := func(pos token.Pos, what string) {
+		die("placement: %s.%s %s at %s — the model takes this function to leave its arguments alone "+
+			"(state shared between descriptors / calls)", recv, name, what, fset.Position(pos))
+	}
+	ast.Inspect(fd.Body, func(n ast.Node) bool {
+		switch x := n.(type) {
+		case *ast.AssignStmt:
+			for _, l := range x.Lhs {
+				if _, plain := l.(*ast.Ident); !plain {
+					if id := rootIdent(l); id != nil && params[id.Name] {
+						bad(l.Pos(), "writes through its argument "+id.Name)
+					}
+				}
+			}
+			for _, r := range x.Rhs {
+				if isParamMem(r) {
+					bad(r.Pos(), "lets a variable share the memory of an argument")
+				}
+			}
+		case *ast.IncDecStmt:
+			if _, plain := x.X.(*ast.Ident); !plain {
+				if id := rootIdent(x.X); id != nil && params[id.Name] {
+					bad(x.Pos(), "writes through its argument "+id.Name)
+				}
+			}
+		case *ast.ReturnStmt:
+			for _, r := range x.Results {
+				if isParamMem(r) {
+					bad(r.Pos(), "returns the memory of an argument")
+				}
+			}
+		case *ast.CallExpr:
+			if id, ok := x.Fun.(*ast.Ident); ok && (id.Name == "append" || id.Name == "copy") && len(x.Args) > 0 {
+				if isParamMem(x.Args[0]) {
+					bad(x.Pos(), id.Name+"s into an argument")
+				}
+			}
+		}
+		return true
+	})
 }
